@@ -182,7 +182,17 @@ for _m in (_m1, _m2, _m3):
 _warm = CsvPath(print_default=False)
 
 
-def fresh(pathstr, records, policy=None, traced_parse=False):
+def _ini_with_policy(config_policy):
+    """a second config file in the work dir whose [errors] csvpath policy is config_policy"""
+    name = "config_" + "_".join(x.strip() for x in config_policy.split(",")) + ".ini"
+    path = os.path.join(workdir(), "config", name)
+    if not os.path.exists(path):
+        with open(path, "w") as f:
+            f.write(CONFIG_INI.replace("csvpath = collect, fail, print", "csvpath = " + config_policy))
+    return path
+
+
+def fresh(pathstr, records, policy=None, traced_parse=False, config_policy=None):
     """A real, parsed CsvPath over the stub reader.  With traced_parse the records may
     contain symbolic cells: construction is native, parse() (which counts lines and reads
     headers through the reader) runs traced."""
@@ -197,7 +207,13 @@ def fresh(pathstr, records, policy=None, traced_parse=False):
         p.parse(pathstr)
         return p, pr
     with NoTracing():
-        p = CsvPath(print_default=False)
+        if config_policy is not None:
+            # the policy the configuration file held when the CsvPath was created (it may be replaced afterwards)
+            os.environ["CSVPATH_CONFIG_PATH"] = _ini_with_policy(config_policy)
+        try:
+            p = CsvPath(print_default=False)
+        finally:
+            os.environ.pop("CSVPATH_CONFIG_PATH", None)
         pr = CapPrinter()
         p.add_printer(pr)
         if policy is not None:
@@ -207,9 +223,8 @@ def fresh(pathstr, records, policy=None, traced_parse=False):
 
 
 def set_policy(p, policy):
+    """the public way to change the policy of one csvpath: assign a new list to its config"""
     p.config.csvpath_errors_policy = list(policy)
-    if getattr(p, "_ecoms", None) is not None:
-        p._ecoms._policy = list(policy)
 
 
 # ---------------------------------------------------------------- channel 6
